@@ -272,5 +272,5 @@ Proof.
     apply Nat.eqb_eq in Ha1. apply Nat.eqb_eq in Ha2.
     unfold lists_ok, leq3. repeat split; auto.
     + rewrite A2, A3, !app_length. lia.
-    + rewrite A3, A4, !app_length. lia.
+    + rewrite A3, A4, !app_length. unfold sub, val in *. lia.
 Qed.
